@@ -116,7 +116,7 @@ def kron_cases(tier, seed):
     for d in (1, 2):
         for fs in itertools.product(full, repeat=d):
             add(fs)
-    a3 = _alphabet(SHAPES3, "drl") if quick else full
+    a3 = _alphabet(SHAPES3, "dl") if quick else full
     for fs in itertools.product(a3, repeat=3):
         add(fs, forms=["v", "c", "m2F", "m3C", "I"] if quick else None, compose=not quick)
     if not quick:
